@@ -19,7 +19,7 @@ func (ft *FuncTr) instr(b *ssa.BasicBlock, st *State, at *Term, in ssa.Instructi
 		return false, nil
 	case *ssa.Alloc:
 		ty := x.Type().(*types.Pointer).Elem()
-		if x.Heap && (ft.snapshotCell(x) || ft.valueArrayCell(x)) {
+		if x.Heap && (ft.snapshotCell(x) || ft.valueArrayCell(x) || ft.lateCell(x)) {
 			st.locals[x] = ft.w.zero(ft.d, ty)
 			ft.vals[x] = Val{Ref: &LocalRef{alloc: x}}
 			return false, nil
@@ -1074,3 +1074,84 @@ func sortedKeysT(m map[string]*Term) []string {
 
 // iterKeyName: ghost variable holding the key chosen by the latest Next of map iteration r (spec: curkey(n)).
 func iterKeyName(r *ssa.Range) string { return fmt.Sprintf("$key_%d", int(r.Pos())) }
+
+// lateCell: a variable captured by closures that only read it, where every capturing closure is used solely as the
+// operand of a call or defer in this function. Nothing can alias such a variable (its address is never taken
+// explicitly), so it is kept as a local; a closure call binds the variable's value at the time of the call.
+func (ft *FuncTr) lateCell(a *ssa.Alloc) bool {
+	if v, ok := ft.lateCells[a]; ok {
+		return v
+	}
+	if ft.lateCells == nil {
+		ft.lateCells = map[*ssa.Alloc]bool{}
+	}
+	res := func() bool {
+		if a.Referrers() == nil {
+			return false
+		}
+		nClos := 0
+		for _, r := range *a.Referrers() {
+			switch x := r.(type) {
+			case *ssa.Store:
+				if x.Addr != ssa.Value(a) {
+					return false
+				}
+			case *ssa.UnOp:
+				if x.Op != token.MUL {
+					return false
+				}
+			case *ssa.DebugRef:
+			case *ssa.MakeClosure:
+				nClos++
+				// the closure value is only called / deferred here
+				if x.Referrers() == nil {
+					return false
+				}
+				for _, u := range *x.Referrers() {
+					switch y := u.(type) {
+					case *ssa.Defer:
+						if y.Call.Value != ssa.Value(x) {
+							return false
+						}
+					case *ssa.Call:
+						if y.Call.Value != ssa.Value(x) {
+							return false
+						}
+					case *ssa.DebugRef:
+					default:
+						return false
+					}
+				}
+				fn, ok := x.Fn.(*ssa.Function)
+				if !ok {
+					return false
+				}
+				for i, b := range x.Bindings {
+					if b != ssa.Value(a) {
+						continue
+					}
+					fv := fn.FreeVars[i]
+					if fv.Referrers() == nil {
+						continue
+					}
+					for _, u := range *fv.Referrers() {
+						switch y := u.(type) {
+						case *ssa.UnOp:
+							if y.Op != token.MUL {
+								return false
+							}
+						case *ssa.DebugRef:
+						default:
+							return false // written, re-captured or passed on inside the closure
+						}
+					}
+				}
+			default:
+				return false
+			}
+		}
+		return nClos > 0
+	}()
+	ft.lateCells[a] = res
+	return res
+}
